@@ -170,7 +170,7 @@ def run_c19(rep, tier):
                     if inj not in injectors:
                         why.append("show does not list injector %s" % inj)
                     for k, st in enumerate(u.sets):
-                        if st["build"]:
+                        if st["build"] or st.get("inline"):
                             continue
                         sid = '"%s".%s' % (p.path(st["pkg"]), st["var"])
                         if sid not in shown:
@@ -182,7 +182,8 @@ def run_c19(rep, tier):
                         if exp != got:
                             why.append("show groups the outputs of %s as %s, expected %s" % (
                                 sid, {tuple(sorted(a)): sorted(b) for a, b in got.items()}, {tuple(sorted(a)): sorted(b) for a, b in exp.items()}))
-                        want_imps = sorted('"%s".%s' % (p.path(u.sets[i]["pkg"]), u.sets[i]["var"]) for i in closure_imports(u, k))
+                        want_imps = sorted('"%s".%s' % (p.path(u.sets[i]["pkg"]), u.sets[i]["var"]) for i in closure_imports(u, k)
+                                           if not u.sets[i].get("inline"))
                         if sorted(shown[sid]["imports"]) != want_imps:
                             why.append("show lists the sets included by %s as %s, expected %s" % (sid, shown[sid]["imports"], want_imps))
             if why:
@@ -205,3 +206,76 @@ def closure_imports(u, k):
         seen.add(i)
         todo.extend(u.sets[i]["imports"])
     return seen
+
+
+# ---- fixed scenario: provider sets written in place inside named sets ------------------------------------------
+
+NESTED = '''package nest
+
+import "github.com/google/wire"
+
+type A struct{}
+type B struct{ A A }
+type C struct{}
+type Config struct{}
+type Store struct{ C Config }
+type Logger struct{}
+type Server struct {
+	L Logger
+	S Store
+}
+
+func NewA() A                         { return A{} }
+func NewB(a A) B                      { return B{A: a} }
+func NewC() C                         { return C{} }
+func NewConfig() Config               { return Config{} }
+func NewStore(c Config) Store         { return Store{C: c} }
+func NewLogger() Logger               { return Logger{} }
+func NewServer(l Logger, s Store) Server { return Server{L: l, S: s} }
+
+var ConfigSet = wire.NewSet(NewConfig)
+var StoreSet = wire.NewSet(NewStore)
+var AppSet = wire.NewSet(wire.NewSet(NewLogger, ConfigSet), wire.NewSet(NewServer, StoreSet))
+
+var Leaf = wire.NewSet(NewA)
+var Mid = wire.NewSet(wire.NewSet(NewB, Leaf))
+var Outer = wire.NewSet(Mid, wire.NewSet(NewC))
+var Outer2 = wire.NewSet(wire.NewSet(NewC), Mid)
+var Three = wire.NewSet(wire.NewSet(NewC), wire.NewSet(wire.NewSet(Leaf)), wire.NewSet(wire.NewSet(wire.NewSet(ConfigSet))))
+'''
+NESTED_WANT = {"ConfigSet": [], "StoreSet": [], "AppSet": ["ConfigSet", "StoreSet"], "Leaf": [], "Mid": ["Leaf"], "Outer": ["Leaf", "Mid"],
+               "Outer2": ["Leaf", "Mid"], "Three": ["ConfigSet", "Leaf"]}
+NESTED_OUT = {"AppSet": ["Config", "Logger", "Server", "Store"], "Outer": ["A", "B", "C"], "Three": ["A", "C", "Config"], "Mid": ["A", "B"]}
+
+
+def run_nested(rep, tier):
+    from .cmdtier import Workspace, MOD, panicked
+    ws = Workspace()
+    fails = []
+    try:
+        os.makedirs(ws.root + "/nest")
+        open(ws.root + "/nest/nest.go", "w").write(NESTED)
+        rc, out, err = ws.wire(["show", "./nest"])
+        rc2, out2, err2 = ws.wire(["check", "./nest"])
+        rep.evaluations += len(NESTED_WANT)
+        if rc != 0 or rc2 != 0 or panicked(err + err2):
+            fails.append({"stream": "c19-nested", "why": ["wire show/check fails on well-formed nested provider sets: " + (err + err2).strip()[-400:]]})
+            return [], fails
+        shown, _ = parse_show(out)
+        for name, want in NESTED_WANT.items():
+            sid = '"%s/nest".%s' % (MOD, name)
+            rep.nontrivial.add("nested:" + name)
+            if sid not in shown:
+                fails.append({"stream": "c19-nested", "why": ["show does not list provider set %s" % name], "source": NESTED})
+                continue
+            got = sorted(x.split(".")[-1] for x in shown[sid]["imports"])
+            if got != want:
+                fails.append({"stream": "c19-nested", "source": NESTED, "show": out[:1500],
+                              "why": ["show lists the named sets %s includes as %s; through its in-place sets it includes %s" % (name, got, want)]})
+            if name in NESTED_OUT:
+                outs = sorted(t.split(".")[-1] for ts in shown[sid]["groups"].values() for t in ts)
+                if outs != NESTED_OUT[name]:
+                    fails.append({"stream": "c19-nested", "source": NESTED, "why": ["show lists the outputs of %s as %s, expected %s" % (name, outs, NESTED_OUT[name])]})
+    finally:
+        ws.close()
+    return [], fails
